@@ -9,13 +9,16 @@
      T_NotEarly           exact: the loop packs when  now + T/2 > when  on whole seconds, so an own block can never be
                           observed before second  when - T/2 + 1  (observation only delays the stamp)
      T_NotLate            less than 2T - buff after the slot, plus LateMargin
-     T_NoStalePack        the best of the blocks the node had stored Margin before the pack does not outdate the flow
-                          (the loop looks at the best block every second; Margin = 3 s)                              *)
+     T_NoStalePack        the NODE's best block (read from the node after every event - the fork choice is the BFT engine's,
+                          quality before score) as it stood Margin before the pack, and unchanged since, does not outdate
+                          the flow (the loop looks at the best block every second; Margin = 3 s; stamps are conservative:
+                          readings carry upper bounds, the pack a lower bound)                              *)
 EXTENDS PackerLoop, Json, TraceLib
 
 Trace == LoadTrace("trace.ndjson")
-VARIABLES l, ord
-tvars == <<now, blocks, known, seenAt, best, pc, flow, wake, packs, l, ord>>
+VARIABLES l, ord,
+          hist     \* <<[at, best]>>: the node's own best block as read from the node after every event (upper-bound stamps)
+tvars == <<now, blocks, known, seenAt, best, pc, flow, wake, packs, l, ord, hist>>
 
 Margin == 3000
 LateMargin == 2500
@@ -28,32 +31,40 @@ Rec(e) == [par |-> e.par, num |-> e.num, time |-> e.time, score |-> e.score, sig
 Idle == UNCHANGED <<now, pc, flow, wake>>
 
 TInit == /\ l = 1 /\ HWMInit /\ now = 0 /\ pc = "sync" /\ flow = NoFlow /\ wake = 0
-         /\ blocks = EmptyF /\ known = {} /\ seenAt = EmptyF /\ best = "b0" /\ packs = {} /\ ord = EmptyF
+         /\ blocks = EmptyF /\ known = {} /\ seenAt = EmptyF /\ best = "b0" /\ packs = {} /\ ord = EmptyF /\ hist = <<>>
 TReset ==
   /\ IsEvent("Reset")
   /\ blocks' = ("b0" :> [par |-> "none", num |-> 0, time |-> 0, score |-> 0, signer |-> -1])
-  /\ known' = {"b0"} /\ seenAt' = ("b0" :> 0) /\ best' = "b0" /\ packs' = {} /\ ord' = ev.ord
+  /\ known' = {"b0"} /\ seenAt' = ("b0" :> 0) /\ best' = "b0" /\ packs' = {} /\ ord' = ev.ord /\ hist' = <<[at |-> 0, best |-> "b0"]>>
   /\ Idle /\ l' = l + 1
-TSynced == IsEvent("Synced") /\ UNCHANGED <<blocks, known, seenAt, best, packs, ord>> /\ Idle /\ l' = l + 1
+TSynced == (IsEvent("Synced") \/ IsEvent("End")) /\ UNCHANGED <<blocks, known, seenAt, best, packs, ord, hist>> /\ Idle /\ l' = l + 1
+\* the node's best is the NODE's (bft.Select: quality first, then score, then id): taken from the event, it only has to be a
+\* block the node has
 Store(e) ==
   /\ e.b \notin known /\ e.par \in known
   /\ blocks' = (e.b :> Rec(e)) @@ blocks
   /\ known' = known \cup {e.b} /\ seenAt' = (e.b :> e.at) @@ seenAt
-  /\ best' = IF Rec(e).score > blocks[best].score \/ (Rec(e).score = blocks[best].score /\ ord[e.b] < ord[best]) THEN e.b ELSE best
+  /\ e.best \in known'
+  /\ best' = e.best
+  /\ hist' = Append(hist, [at |-> e.at, best |-> e.best])
 TImport == IsEvent("Import") /\ Store(ev) /\ UNCHANGED <<packs, ord>> /\ Idle /\ l' = l + 1
 TPack ==
   /\ IsEvent("Pack")
   /\ Store(ev)
-  /\ packs' = packs \cup {[b |-> ev.b, at |-> ev.at, flow |-> [par |-> ev.par, when |-> ev.time, score |-> ev.score], bestThen |-> best]}
+  /\ packs' = packs \cup {[b |-> ev.b, at |-> ev.at, lo |-> ev.lo, flow |-> [par |-> ev.par, when |-> ev.time, score |-> ev.score], bestThen |-> best]}
   /\ UNCHANGED ord /\ Idle /\ l' = l + 1
 TNext == TReset \/ TSynced \/ TImport \/ TPack
 TSpec == TInit /\ [][TNext]_tvars
 
-Old(q) == {x \in known : x # q.b /\ seenAt[x] <= q.at - Margin}
-StaleBest(q) == CHOOSE x \in Old(q) : \A y \in Old(q) : x = y \/ TBetter(x, y)
-T_NoStalePack == \A q \in packs : Old(q) # {} => ~Outdates(StaleBest(q), q.flow)
+\* what the node's best block was Margin before the pack at the latest: the last reading stamped at or before lo - Margin
+\* (a reading's stamp is an upper bound of the moment the node had that best, lo a lower bound of the moment it packed)
+OldIdx(q) == {i \in DOMAIN hist : hist[i].at <= q.lo - Margin /\ hist[i].best # q.b}
+StaleBest(q) == hist[CHOOSE i \in OldIdx(q) : \A j \in OldIdx(q) : j <= i].best
+\* ... and nothing changed it until the pack (a later reading may show another best; then the node had less than Margin)
+Unchanged(q) == \A i \in DOMAIN hist : hist[i].at > q.lo - Margin /\ hist[i].at < q.lo => hist[i].best = StaleBest(q)
+T_NoStalePack == \A q \in packs : OldIdx(q) # {} /\ Unchanged(q) => ~Outdates(StaleBest(q), q.flow)
 T_NotEarly == \A q \in packs : q.at >= (q.flow.when - T \div 2 + 1) * 1000
-T_NotLate == \A q \in packs : q.at - q.flow.when * 1000 < (2 * T - Buff) * 1000 + LateMargin
+T_NotLate == \A q \in packs : q.lo - q.flow.when * 1000 < (2 * T - Buff) * 1000 + LateMargin
 T_OnePerParentSlot == OnePerParentSlot
 
 Progress == HWM(l)
